@@ -471,7 +471,7 @@ def asAny : GV → GV
   | v => .any v
 
 /-- the tail of export for an Array once the elements are exported (value.go:671-693) -/
-def exportArrayFinish (elems : List GV) : Res GV :=
+def exportArrayFinish (strict : Bool) (elems : List GV) : Res GV :=
   match elems.getLast? with
   | none => .ok (.slice .nil)                                  -- state 0: []interface{}{}
   | some last =>
@@ -481,28 +481,29 @@ def exportArrayFinish (elems : List GV) : Res GV :=
       .ok (.slice (GVs.ofList (elems.map asAny)))              -- no common type: []interface{}
     else if elems.all (fun e => gvType e = gvType last) then
       .ok (.slice (GVs.ofList elems))                          -- []T
-    else .goPanic                                              -- reflect.Set: value not assignable (l.691)
+    else if strict then .goPanic                               -- reflect.Set: value not assignable (l.691)
+    else .ok (.slice (GVs.ofList (elems.map asAny)))
 
 mutual
-def exportV : JV → Res GV
+def exportV (strict : Bool) : JV → Res GV
   | .undef | .null => .ok .anyNil
   | .bool b => .ok (.bool b)
   | .num n => .ok (.num n)
   | .str s => .ok (.str s)
-  | .arr es => (exportElems es).bind exportArrayFinish
-  | .obj ps => (exportProps ps).map .map
+  | .arr es => (exportElems strict es).bind (exportArrayFinish strict)
+  | .obj ps => (exportProps strict ps).map .map
 /-- holes are skipped (`!obj.hasProperty(name)`, value.go:652) -/
-def exportElems : JVs → Res (List GV)
+def exportElems (strict : Bool) : JVs → Res (List GV)
   | .nil => .ok []
-  | .hole r => exportElems r
-  | .cons v r => (exportV v).bind (fun a => (exportElems r).map (a :: ·))
+  | .hole r => exportElems strict r
+  | .cons v r => (exportV strict v).bind (fun a => (exportElems strict r).map (a :: ·))
 /-- undefined-valued properties are skipped (value.go:700) -/
-def exportProps : JPs → Res GPs
+def exportProps (strict : Bool) : JPs → Res GPs
   | .nil => .ok .nil
   | .cons k v r =>
     match v with
-    | .undef => exportProps r
-    | _ => (exportV v).bind (fun a => (exportProps r).map (fun m => GPs.set k (asAny a) m))
+    | .undef => exportProps strict r
+    | _ => (exportV strict v).bind (fun a => (exportProps strict r).map (fun m => GPs.set k (asAny a) m))
 end
 
 /-! ## convertCallParameter (runtime.go:341) -/
@@ -512,6 +513,8 @@ structure Leaf where
   num : Num → NT → Res Num            -- numeric conversion
   numStr : Num → Option Str           -- number → Go string parameter
   holeIsUndefined : Bool              -- an array hole converts like `undefined` (else: left at the zero value)
+  exportStrict : Bool                 -- export() of an array whose elements share the (Kind, key Kind, elem Kind) triple
+                                      -- but not the type panics in reflect.Set (value.go:691) instead of falling back
   ptrAnyPanics : Bool                 -- `*interface{}` targets: the pointer is made to the DYNAMIC type (l.402) and the
                                       -- later reflect Set/Call panics with a type mismatch
 
@@ -540,7 +543,7 @@ mutual
 def convB (L : Leaf) (v : JV) (t : GT) : Res GV :=
   match t with
   | .ptr _ => .typeErr                                          -- not reached: `t` is a base type
-  | .any => (exportV v).map asAny                               -- l.376
+  | .any => (exportV L.exportStrict v).map asAny                -- l.376
   | .bool => .ok (.bool (toBool v))                             -- l.409
   | .str =>                                                     -- l.411, l.582
     match v with
@@ -599,7 +602,7 @@ end
 def conv (L : Leaf) (v : JV) (t : GT) : Res GV := ptrWrap L t v (convB L v t.base)
 
 /-- the code: convertNumeric, Go `%v` formatting, holes skipped -/
-def modelLeaf : Leaf := { num := convertNumeric, numStr := goFmtV, holeIsUndefined := false, ptrAnyPanics := true }
+def modelLeaf : Leaf := { num := convertNumeric, numStr := goFmtV, holeIsUndefined := false, exportStrict := true, ptrAnyPanics := true }
 
 def convertCallParameter (v : JV) (t : GT) : Res GV := conv modelLeaf v t
 
@@ -613,23 +616,47 @@ structure Sig where
 
 def GVs.ofArr (l : List GV) : GVs := GVs.ofList l
 
-/-- convert the fixed (non-variadic-tail) arguments one by one; first failure wins -/
+def Res.isGoPanic {α} : Res α → Bool
+  | .goPanic => true
+  | _ => false
+
+/-- a top-level `*interface{}` parameter: the wrongly typed pointer is only rejected by reflect.Call, i.e.
+    AFTER the remaining arguments have been converted, so a later argument's error is reported first -/
+def deferredPanic (L : Leaf) (a : JV) (t : GT) : Bool :=
+  decide (t.depth > 0) && t.base.isAny && L.ptrAnyPanics && !a.isNullish && !(exportV L.exportStrict a).isGoPanic
+
+/-- convert the fixed (non-variadic-tail) arguments one by one; first failure wins.  A deferred
+    `*interface{}` argument does not fail here (placeholder), see `finishCall`. -/
 def convArgs (L : Leaf) : List JV → List GT → Res (List GV)
   | [], _ => .ok []
   | _, [] => .ok []
-  | a :: as, t :: ts => (conv L a t).bind (fun g => (convArgs L as ts).map (g :: ·))
+  | a :: as, t :: ts =>
+    if deferredPanic L a t then (convArgs L as ts).map (.ptrNil :: ·)
+    else (conv L a t).bind (fun g => (convArgs L as ts).map (g :: ·))
 
 def convAll (L : Leaf) (as : List JV) (t : GT) : Res (List GV) :=
   match as with
   | [] => .ok []
-  | a :: r => (conv L a t).bind (fun g => (convAll L r t).map (g :: ·))
+  | a :: r =>
+    if deferredPanic L a t then (convAll L r t).map (.ptrNil :: ·)
+    else (conv L a t).bind (fun g => (convAll L r t).map (g :: ·))
+
+def deferredIn (L : Leaf) : List JV → List GT → Bool
+  | a :: as, t :: ts => deferredPanic L a t || deferredIn L as ts
+  | _, _ => false
+
+/-- val.Call(in): every argument converted; a wrongly typed `*interface{}` now makes reflect panic -/
+def finishCall (deferred : Bool) (r : Res (List GV)) : Res (List GV) :=
+  match r with
+  | .ok gs => if deferred then .goPanic else .ok gs
+  | e => e
 
 /-- what the Go callee receives (its parameter list; the variadic tail as one slice), or the error -/
 def callWrapper (L : Leaf) (sig : Sig) (args : List JV) : Res (List GV) :=
   let nargs := sig.ins.length
   if ¬ sig.variadic then
     if args.length ≠ nargs then .rangeErr                                   -- l.716
-    else convArgs L args sig.ins
+    else finishCall (deferredIn L args sig.ins) (convArgs L args sig.ins)
   else
     if args.length < nargs - 1 then .rangeErr                                -- l.713
     else
@@ -637,7 +664,8 @@ def callWrapper (L : Leaf) (sig : Sig) (args : List JV) : Res (List GV) :=
       let et := sig.ins.getLastD .any
       let fixedA := args.take (nargs - 1)
       let tailA := args.drop (nargs - 1)
-      (convArgs L fixedA fixedT).bind (fun fixed =>
+      finishCall (deferredIn L fixedA fixedT || (tailA.length ≠ 1 && tailA.any (fun a => deferredPanic L a et)))
+      ((convArgs L fixedA fixedT).bind (fun fixed =>
         -- l.743: exactly nargs arguments: try the last one as the whole variadic slice
         match tailA with
         | [a] =>
@@ -646,7 +674,7 @@ def callWrapper (L : Leaf) (sig : Sig) (args : List JV) : Res (List GV) :=
            | .typeErr => (conv L a et).map (fun g => fixed ++ [.slice (.cons g .nil)])
            | .rangeErr => .rangeErr
            | .goPanic => .goPanic)
-        | _ => (convAll L tailA et).map (fun gs => fixed ++ [.slice (GVs.ofList gs)]))
+        | _ => (convAll L tailA et).map (fun gs => fixed ++ [.slice (GVs.ofList gs)])))
 
 /-! ## Value.toReflectValue (value.go:741): the conversion used by slice / array / map writes -/
 
@@ -745,7 +773,7 @@ def toReflectValue (v : JV) (t : GT) : Res GV :=
   | .any =>                                                    -- default branch, l.853
     (match v with
      | .undef | .null => .goPanic            -- reflect.ValueOf(nil) is the invalid Value; Set panics
-     | .arr _ | .obj _ => (exportV v).map asAny
+     | .arr _ | .obj _ => (exportV true v).map asAny
      | .bool b => .ok (.any (.bool b))
      | .num n => .ok (.any (.num n))
      | .str s => .ok (.any (.str s)))
